@@ -1835,9 +1835,14 @@ impl HandlerRunner {
                     let (now, timeout) = (self.now_ms, self.timeout_ms);
                     !self.ledger.outstanding_chal.iter().any(|((n, _), v)| *n == tidx && v.1 == claimed && v.2 == src && now <= v.0 + timeout + 5)
                 };
+                // (a message the harness can open is a use of the recipient's session only if it is sealed
+                // under a key of a session the recipient itself has for that source - a handshake the
+                // recipient never saw yields keys that mean nothing to it: such a message does not open)
+                let opens_here = self.delivering_handshake
+                    || self.cur_key.map(|k| self.key_addrs.get(&(tidx, k)).map(|a| a.contains(&src)).unwrap_or(false)).unwrap_or(false);
                 if hs_unchallenged_now {
                     stats.bump("h.handshake-datagram-without-outstanding-challenge");
-                } else if self.cur_authentic {
+                } else if self.cur_authentic && opens_here {
                     self.obs += 1;
                     self.use_log.push((tidx, src, self.obs));
                     if self.delivering_handshake {
